@@ -42,6 +42,15 @@ class _Return(Exception):
         self.v = v
 
 
+class Raised(Exception):
+    """An exception raised by the interpreted code with ``raise Name(...)`` / ``raise Name`` (class name only)."""
+
+    def __init__(self, name: str, args=()):
+        super().__init__(name)
+        self.name = name
+        self.exc_args = tuple(args)
+
+
 class _Break(Exception):
     pass
 
@@ -145,11 +154,76 @@ class Evaluator:
             if not broke:
                 self.block(st.orelse, env)
             return
+        if isinstance(st, ast.Raise):
+            if st.exc is None:
+                if getattr(self, "_active_exc", None) is not None:
+                    raise self._active_exc
+                raise Unsupported("bare raise outside a handler")
+            target = st.exc.func if isinstance(st.exc, ast.Call) else st.exc
+            if not isinstance(target, (ast.Name, ast.Attribute)):
+                raise Unsupported("raise of a computed exception")
+            if isinstance(target, ast.Name) and isinstance(env.get(target.id), Raised):
+                raise env[target.id]
+            cname = ast.unparse(target).split(".")[-1]
+            args = [self.expr(a, env) for a in st.exc.args] if isinstance(st.exc, ast.Call) else []
+            raise Raised(cname, args)
+        if isinstance(st, ast.Try):
+            self._try(st, env)
+            return
         if isinstance(st, ast.Break):
             raise _Break()
         if isinstance(st, ast.Continue):
             raise _Continue()
         raise Unsupported(f"statement {type(st).__name__}")
+
+    # names of the classes an exception raised while interpreting belongs to (for `except` matching);
+    # repository classes: through the optional hook self.exc_bases(name) -> set of names
+    exc_bases = None
+
+    def _exc_names(self, e) -> set:
+        if isinstance(e, Raised):
+            names = {e.name, "Exception", "BaseException"}
+            import builtins
+            b = getattr(builtins, e.name, None)
+            if isinstance(b, type) and issubclass(b, BaseException):
+                names |= {c.__name__ for c in b.__mro__ if c is not object}
+            if self.exc_bases is not None:
+                names |= set(self.exc_bases(e.name))
+            return names
+        return {c.__name__ for c in type(e).__mro__ if c is not object}
+
+    def _try(self, st: ast.Try, env):
+        try:
+            try:
+                self.block(st.body, env)
+            except (_Return, _Break, _Continue, Unsupported):
+                raise
+            except (Raised, LookupError, TypeError, ValueError, AttributeError, ArithmeticError, StopIteration) as e:
+                names = self._exc_names(e)
+                for h in st.handlers:
+                    if h.type is None:
+                        hn = {"BaseException"}
+                    elif isinstance(h.type, ast.Tuple):
+                        hn = {ast.unparse(x).split(".")[-1] for x in h.type.elts}
+                    else:
+                        hn = {ast.unparse(h.type).split(".")[-1]}
+                    if hn & names:
+                        if h.name:
+                            env[h.name] = e if isinstance(e, Raised) else Raised(type(e).__name__, e.args)
+                        prev = getattr(self, "_active_exc", None)
+                        self._active_exc = e
+                        try:
+                            self.block(h.body, env)
+                        finally:
+                            self._active_exc = prev
+                        break
+                else:
+                    raise
+            else:
+                self.block(st.orelse, env)
+        finally:
+            if st.finalbody:
+                self.block(st.finalbody, env)
 
     def assign(self, t, v, env):
         if isinstance(t, ast.Name):
